@@ -762,7 +762,17 @@ pub fn run_shard(ctx: &ShardCtx, rep: &mut Report) {
                 rep.count("probe.allow_parse_errors_used");
             }
         }
-        let th = rng::hash_bytes(rng::hash_bytes(o.status.unwrap_or(-1) as u64 + 7, &o.stdout), if o.stderr.is_empty() { b"0" } else { b"1" });
+        // JSON carries syntax-node ids (heap addresses of the child) and attribute maps in the
+        // child's hash order: the transcript uses the normalised value, never the raw bytes
+        let stdout_norm: Vec<u8> = if case.json {
+            match serde_json::from_slice::<J>(&o.stdout) {
+                Ok(v) => normalise_json(&v).to_string().into_bytes(),
+                Err(_) => (if o.stdout.is_empty() { "empty" } else { "non-json" }).to_string().into_bytes(),
+            }
+        } else {
+            o.stdout.clone()
+        };
+        let th = rng::hash_bytes(rng::hash_bytes(o.status.unwrap_or(-1) as u64 + 7, &stdout_norm), if o.stderr.is_empty() { b"0" } else { b"1" });
         rep.run_hashes.push((i, th));
         if !matches!(exp, Expect::Fail("rejected-file")) {
             rep.distinct("cases", rng::hash_str(&case.to_json().to_string()));
